@@ -175,6 +175,7 @@ def _write_evidence(chk: Check, wall: float, proof: dict, nviol: int, known: lis
         'stated_unproved': proof.get('stated_unproved', []),
         'broken_obligations': proof.get('broken', []),
         'leanchecker': proof.get('leanchecker'),
+        'lean_sources_audited': proof.get('sources_scanned', []),
         'evaluations': chk.evaluations,
         'distinct_nontrivial': len(chk.distinct),
         'rule': chk.RULE,
